@@ -17,7 +17,9 @@ from pyvc.interp import SymRat
 
 # float constants: a fraction, a negative fraction, a whole number, and a representable number that is within 1e-9
 # (relative) of a whole number without being one (float shortcuts such as math.isclose / round() must not treat it as whole)
-FLOATS = (1.5, -0.75, 3.0, 268435456.125)
+# ... and one whose scaled representation is an ODD 53-bit integer (2^52 + 1): the last place where float arithmetic on
+# the scaled value (adding 0.5, say) is still exact for its neighbours but not for it
+FLOATS = (1.5, -0.75, 3.0, 268435456.125, float(2 ** 52 + 1) / 8)
 RES = (0, 3)                  # resolutions (quick); thorough adds 8
 
 
@@ -64,7 +66,7 @@ class _Fxp(Contract):
     raises_unspecified = True
     guard_relevant = False        # the guard facets of these wrappers are those of the LinComb operations they call
     op = None
-    kinds = ("fxp", "lc", "int", "float0", "float1", "float2", "float3")
+    kinds = ("fxp", "lc", "int", "float0", "float1", "float2", "float3", "float4")
     reflected = False
 
     def use_stub(self, c, *a, **k):
@@ -78,7 +80,7 @@ class _Fxp(Contract):
                     if k.startswith("float") and FLOATS[int(k[5:])] * (1 << r) != int(FLOATS[int(k[5:])] * (1 << r)):
                         continue
                     # a negative divisor, or one far beyond the comparison width, is always refused
-                    neg_div = k in ("float1", "float3") and self.op in ("__truediv__", "__floordiv__", "__mod__")
+                    neg_div = k in ("float1", "float3", "float4") and self.op in ("__truediv__", "__floordiv__", "__mod__")
                     out.append(dict(mode=m, kind=k, res=r, bits=r + 4, **({"raises_only": True} if neg_div else {})))
         return out
 
